@@ -69,9 +69,6 @@ type Node struct {
 	Any  interface{}
 }
 
-// Rec is a slice type that can hold itself.
-type Rec []Rec
-
 var registry = map[string]reflect.Type{
 	"Pt":     reflect.TypeOf(Pt{}),
 	"User":   reflect.TypeOf(User{}),
@@ -79,7 +76,6 @@ var registry = map[string]reflect.Type{
 	"Labels": reflect.TypeOf(Labels{}),
 	"HKey":   reflect.TypeOf(HKey{}),
 	"Node":   reflect.TypeOf(Node{}),
-	"Rec":    reflect.TypeOf(Rec{}),
 }
 
 func init() {
